@@ -1385,6 +1385,7 @@ class SpaceManager(SharedSpaceOperations):
         self.update_subs(space, skip_self=False)
 
     def del_ref(self, space, name):
+        self._check_relref_uncovered(space, name)
         space.on_del_ref(name)
         # Only the references: re-deriving the cells as well would discard
         # the values, input values included, of every derived cells
@@ -1591,6 +1592,37 @@ class SpaceManager(SharedSpaceOperations):
                         "Cannot create relative reference for '%s' in '%s'"
                         % (basevalue, subspace.idstr)
                     )
+
+    def _check_relref_uncovered(self, space, name):
+        """Check the reference derived in place of a deleted one
+
+        Without the reference ``name`` of ``space``, the space and its
+        sub spaces derive the name from the next space defining it.
+        Raise an error, before anything is deleted, if that reference is
+        in 'relative' mode and cannot be re-bound there.
+        """
+        for sub in itertools.chain([space], self._get_subs(space)):
+            if (sub is not space and name in sub.own_refs
+                    and sub.own_refs[name].is_defined()):
+                continue
+            bases = sub.bases
+            for i, b in enumerate(bases):
+                if b is space or name not in b.own_refs:
+                    continue
+                ref = b.own_refs[name]
+                if not ref.is_defined():
+                    continue
+                if sub is not space and i < bases.index(space):
+                    break   # Derived from a nearer definition already
+                if ref.refmode == "relative" and ref.has_interface():
+                    subvalue = self._graph.get_relative(
+                        sub.idstr, b.idstr, ref.interface._impl.idstr)
+                    if (not subvalue or
+                            self.model.get_impl_from_name(subvalue) is None):
+                        raise ValueError(
+                            "Relative reference %s.%s out of scope" %
+                            (sub.get_fullname(), name))
+                break
 
     def new_ref(self, space, name, value, refmode):
 
